@@ -35,6 +35,11 @@ func skeletons(tier string) []*ukit.Spec {
 		}},
 		{Kind: ukit.KObject, ID: "S8", Props: []ukit.Prop{{Name: "m", Type: &ukit.Spec{Kind: ukit.KMap, Key: &ukit.Spec{Kind: ukit.KStrEnum, EnumS: []string{"a", "b"}}, Val: str13()}, Required: true}}},
 		{Kind: ukit.KObject, ID: "S3", Props: []ukit.Prop{{Name: "u", Type: ukit.OneOfSpecs()[0], Required: true}}},
+		{Kind: ukit.KObject, ID: "Sh", Props: []ukit.Prop{{Name: "ints", Type: &ukit.Spec{Kind: ukit.KObject, ID: "ShInner", Props: []ukit.Prop{
+			{Name: "items", Type: &ukit.Spec{Kind: ukit.KList, Item: i05(), Min: ukit.I64(1), Max: ukit.I64(3)}, Required: true}}}, Required: true},
+			{Name: "other", Type: str13()}}},
+		{Kind: ukit.KList, Item: &ukit.Spec{Kind: ukit.KObject, ID: "ShL", Props: []ukit.Prop{
+			{Name: "objs", Type: &ukit.Spec{Kind: ukit.KList, Item: &ukit.Spec{Kind: ukit.KObject, ID: "ShO", Props: []ukit.Prop{{Name: "k", Type: str13(), Required: true}, {Name: "n", Type: i05()}}}}, Required: true}}}},
 		{Kind: ukit.KObject, ID: "S3i", Props: []ukit.Prop{{Name: "u", Type: ukit.OneOfSpecs()[5], Required: true}}},
 		ukit.ScopeSpecs()[0], ukit.ScopeSpecs()[1], ukit.ScopeSpecs()[2],
 		ukit.ShapeSpecs()[0], ukit.ShapeSpecs()[5], ukit.ShapeSpecs()[6],
@@ -116,7 +121,14 @@ func check(spec *ukit.Spec, tier string, res *ux.Result, only *replay) {
 		}
 		res.Add(fmt.Sprintf("%s: error path %s (%s)", op, kind, c.Kind), what+fmt.Sprintf("\nerror path: %v (normalised %v); expected %v", ce.Path, got, c.Path), rp)
 	}
-	for vi, valid := range ukit.ValidValues(spec, 2) {
+	valids := ukit.ValidValues(spec, 2)
+	for _, v := range ukit.ValidValues(spec, 2) {
+		// the same inputs with one-property objects given in lone-value shorthand
+		if sh, changed := ukit.Shorthand(spec, v); changed {
+			valids = append(valids, sh)
+		}
+	}
+	for vi, valid := range valids {
 		for ci, c := range ukit.Corruptions(spec, valid) {
 			idx := vi*100000 + ci
 			if only != nil && (only.Op != "Unserialize" || only.Idx != idx) {
